@@ -95,13 +95,20 @@ struct Host {
 fn hosts() -> Vec<Host> {
     let mut out = Vec::new();
     for (label, target, wire, _b) in all_seeds() {
-        if !(label.ends_with(":full") || label.ends_with(":minimal")) {
+        // the seed whose parameter list has entries of a foreign credential type contributes those
+        // entries as additional hosts (an entry that is going to be filtered out is still a map
+        // whose unknown members must be skipped)
+        let foreign = label.ends_with(":full-with-foreign-type-entries");
+        if !(label.ends_with(":full") || label.ends_with(":minimal") || foreign) {
             continue;
         }
         if target == Target::Cmd(0x41) {
             continue; // same decoder as 0x0a (C11); keeps the host list to distinct map types
         }
         for s in treewalk::sites(&target.schema(), &wire) {
+            if foreign && !s.name.contains("pubKeyCredParams") {
+                continue;
+            }
             if let Ty::Struct(Keys::Text, fields) = &s.ty {
                 let mut known: Vec<String> = Vec::new();
                 for f in fields {
@@ -270,6 +277,41 @@ pub fn run(ctx: &'static Ctx) {
             l.fail(ctx, idx, v, || icase(h, *pos, &V::t(name), val));
         }
     });
+    // long runs of one repeated two-byte item (a second byte that looks like a CBOR head must not
+    // confuse whatever skips the value): every second byte, five item kinds, runs of 30 / 40 / 100
+    {
+        let mut vals: Vec<(String, V)> = Vec::new();
+        for n in [30usize, 40, 100] {
+            for b in 0..=255u8 {
+                if b >= 24 {
+                    vals.push((format!("{} x uint({})", n, b), V::A(vec![V::U(b as u64); n])));
+                    vals.push((format!("{} x nint({})", n, b), V::A(vec![V::N(b as u64); n])));
+                }
+                if b >= 32 {
+                    vals.push((format!("{} x simple({})", n, b), V::A(vec![V::Simple(b); n])));
+                }
+                vals.push((format!("{} x h'{:02x}'", n, b), V::A(vec![V::B(vec![b]); n])));
+                if b < 0x80 {
+                    vals.push((format!("{} x text U+{:04X}", n, b), V::A(vec![V::t(&(b as char).to_string()); n])));
+                }
+            }
+        }
+        // one host of each map type is enough here: the skipping code is shared
+        let mut seen = std::collections::BTreeSet::new();
+        let picks: Vec<usize> = hosts.iter().enumerate().filter(|(_, h)| seen.insert(h.label.rsplit('/').next().unwrap_or("").trim_end_matches(|c: char| c.is_ascii_digit() || c == '[' || c == ']').to_string())).map(|(i, _)| i).collect();
+        let (vr, pr) = (&vals, &picks);
+        sweep(ctx, "unknown member insertion: long runs of one two-byte item", (vals.len() * picks.len()) as u64, "arrays of 30 / 40 / 100 copies of uint8(b), nint8(b), simple(b), a one-byte byte string b, a one-character text b for every byte b, as value of an unknown member at the end of one host of each map type", move |idx, l| {
+            let (what, val) = &vr[(idx as usize) / pr.len()];
+            let h = &hr[pr[(idx as usize) % pr.len()]];
+            l.nontrivial += 1;
+            let v = check_insert(h, h.len, &V::t("zzrun"), val);
+            l.bump(if v.ok { "identical" } else { "differs" });
+            if !v.ok {
+                let _ = what;
+                l.fail(ctx, idx, v, || icase(h, h.len, &V::t("zzrun"), val));
+            }
+        });
+    }
     // several unknown members in one host at once (counters, fixed-size bookkeeping)
     let mut mcases: Vec<(usize, usize, u8)> = Vec::new(); // (host, count, placement 0 = front, 1 = back, 2 = interleaved)
     for hi in 0..hosts.len() {
